@@ -6,8 +6,9 @@ from .. import nodegen
 
 ID = "C16"
 SUITES = ["codec", "node", "init"]
-LEAN_MODULES = ["VpnCloud.Proofs.C16", "VpnCloud.Proofs.C16Init"]
+LEAN_MODULES = ["VpnCloud.Proofs.C16", "VpnCloud.Proofs.C16Init", "VpnCloud.Proofs.C16More"]
 THEOREMS = ["VpnCloud.Proofs.C16." + n for n in ("range_roundtrip", "rotmsg_roundtrip", "partsOf_flatten", "nodeinfo_roundtrip", "unknown_parts_skipped", "decodeParts_fuel", "readU16_lt")] + ["VpnCloud.Proofs.C16Init.initmsg_roundtrip"]
+THEOREMS = THEOREMS + ["VpnCloud.Proofs.C16More." + n for n in ('readRotMsg_none_iff', 'readRotMsg_isSome_iff', 'rotmsg_trailing_ignored', 'readRotMsg_bounded', 'readFields_fuel', 'init_decode_total', 'unknown_init_parts_skipped', 'unknown_part_changes_signed_region', 'decode_alloc_bounded', 'readFields_bounded')]
 BATCH = 100
 SEARCH_BUDGET_S = 300
 RULE = ("suite codec: generated node information messages (0..20 peers, 0..9 addresses per family, claims of every address length 0..16 and "
